@@ -119,32 +119,81 @@ func forkJoin(c *Check, r *Repo, ea *effAnalysis, reach []*ssa.Function) {
 				c.Und("R-forkjoin", nm, r.pos(s.In.Pos()), "spawned function value is not a closure literal or a named function")
 				continue
 			}
-			eff := activationShared(ea.summary(s.Fn), f)
-			for _, fv := range s.Fn.FreeVars {
-				t := fv.Type()
-				if p, ok := t.Underlying().(*types.Pointer); ok {
-					t = p.Elem()
-				}
-				if _, isFn := t.Underlying().(*types.Signature); isFn {
-					c.Und("R-forkjoin", nm, r.pos(s.In.Pos()), "the spawned closure captures the function value "+fv.Name()+" created outside it; its effects are not part of the closure's lexical summary")
+			var stack []*ssa.Function
+			{
+				seen := map[*ssa.Function]bool{f: true}
+				work := []*ssa.Function{f}
+				for len(work) > 0 && len(stack) < 50 {
+					g := work[0]
+					work = work[1:]
+					for _, cs := range ea.callSites(g) {
+						if p := cs.Parent(); p != nil && !seen[p] {
+							seen[p] = true
+							stack = append(stack, p)
+							work = append(work, p)
+						}
+					}
 				}
 			}
-			// root-level dynamic calls are not lexically accounted
-			rootDyn := ""
-			instrsOf(s.Fn, func(in ssa.Instruction) {
-				if call, ok := in.(ssa.CallInstruction); ok && call.Common().StaticCallee() == nil && !call.Common().IsInvoke() {
-					if _, isB := call.Common().Value.(*ssa.Builtin); isB {
-						return
+			sum := ea.summary(s.Fn)
+			if len(s.More) > 0 {
+				u := newEffects()
+				for _, g := range append([]*ssa.Function{s.Fn}, s.More...) {
+					for l, p := range ea.summary(g).R {
+						u.R[l] = p
 					}
-					switch call.Common().Value.(type) {
-					case *ssa.Parameter, *ssa.FreeVar:
-						rootDyn = r.pos(in.Pos())
+					for l, p := range ea.summary(g).W {
+						u.W[l] = p
 					}
 				}
-			})
+				sum = u
+			}
+			eff := activationShared(sum, f, stack...)
+			// function values the closure receives from outside: their effects are part of its summary
+			// only when every one resolves to known functions (the closures and methods passed at the
+			// call sites of a helper that runs what it is given); anything else is unknown
+			rootDyn := ""
+			allFns := append([]*ssa.Function{s.Fn}, s.More...)
+			for _, sf := range allFns {
+				instrsOf(sf, func(in ssa.Instruction) {
+					if call, ok := in.(ssa.CallInstruction); ok && call.Common().StaticCallee() == nil && !call.Common().IsInvoke() {
+						if _, isB := call.Common().Value.(*ssa.Builtin); isB {
+							return
+						}
+						switch call.Common().Value.(type) {
+						case *ssa.Parameter, *ssa.FreeVar:
+							if len(ea.funcValues(call.Common().Value, map[ssa.Value]bool{})) == 0 {
+								rootDyn = r.pos(in.Pos())
+							}
+						}
+					}
+				})
+			}
 			if rootDyn != "" {
-				c.Und("R-forkjoin", nm, rootDyn, "the spawned closure calls a function value received from outside; its effects are not part of the closure's lexical summary")
+				c.Und("R-forkjoin", nm, rootDyn, "the spawned closure calls a function value received from outside that does not resolve to known functions; its effects are not part of the closure's summary")
 				continue
+			}
+			for _, sf := range allFns {
+				for _, fv := range sf.FreeVars {
+					t := fv.Type()
+					if p, ok := t.Underlying().(*types.Pointer); ok {
+						t = p.Elem()
+					}
+					if _, isFn := t.Underlying().(*types.Signature); isFn {
+						// the variable must resolve wherever it is loaded
+						resolved := true
+						instrsOf(sf, func(in ssa.Instruction) {
+							if u, ok := in.(*ssa.UnOp); ok && u.Op == token.MUL && u.X == ssa.Value(fv) {
+								if len(ea.funcValues(u, map[ssa.Value]bool{})) == 0 {
+									resolved = false
+								}
+							}
+						})
+						if !resolved {
+							c.Und("R-forkjoin", nm, r.pos(s.In.Pos()), "the spawned closure captures the function value "+fv.Name()+" created outside it and it does not resolve to known functions; its effects are not part of the closure's summary")
+						}
+					}
+				}
 			}
 			var unk []string
 			for _, l := range sortedLocs(eff.W) {
@@ -267,10 +316,17 @@ func forkJoin(c *Check, r *Repo, ea *effAnalysis, reach []*ssa.Function) {
 // allocated by a function that is not the spawner or one of its lexical
 // ancestors: such a variable belongs to one activation of a callee (e.g. the
 // cursor inside (*node).Iterator) and each goroutine's calls create their own.
-func activationShared(e *effects, spawner *ssa.Function) *effects {
+func activationShared(e *effects, spawner *ssa.Function, callers ...*ssa.Function) *effects {
 	var pre []string
 	for q := spawner; q != nil; q = q.Parent() {
 		pre = append(pre, "V:"+fnName(q)+".")
+	}
+	// the activations on the stack when the spawner runs: functions that call it hand it closures
+	// over their own variables, and those variables are shared by the goroutines as well
+	for _, c := range callers {
+		for q := c; q != nil; q = q.Parent() {
+			pre = append(pre, "V:"+fnName(q)+".")
+		}
 	}
 	keep := func(l string) bool {
 		if !strings.HasPrefix(l, "V:") {
